@@ -94,6 +94,22 @@ def run(ctx):
                 good = bool(live) and all(o.store.get((RP, F("ovni_rproc", "st"))) == INT(ST[ends]) for o in live)
                 ctx.check(good, "R11.3", inst, fn.loc(),
                           "%s from %s does not proceed to %s" % (fname, sname, ends))
+                # claiming the state must be one atomic read-modify-write that comes before any effect: a load
+                # followed later by a store lets two racing callers both see the old state and both proceed
+                claim_bad = []
+                for o in live:
+                    ats = [(i, ev) for i, ev in enumerate(o.events) if ev[0] == "atomic" and ev[2] == (RP, F("ovni_rproc", "st"))]
+                    effs = [i for i, ev in enumerate(o.events)
+                            if (ev[0] == "store" and ev[1][0] == RP and ev[1][1] != F("ovni_rproc", "st")) or
+                            (ev[0] == "call" and ev[1] not in ("vdie", "verr", "verr_", "vaerr"))]
+                    if not ats or "compare_exchange" not in ats[0][1][1]:
+                        claim_bad.append("the first access to rproc.st is %s, not a compare-and-swap: two threads calling "
+                                         "%s at the same time can both pass the state test" %
+                                         (ats[0][1][1] if ats else "missing", fname))
+                    elif effs and min(effs) < ats[0][0]:
+                        claim_bad.append("effects precede the compare-and-swap that claims the state")
+                ctx.check(not claim_bad, "R11.3", "%s:claims-state-atomically" % fname, fn.loc(),
+                          "; ".join(sorted(set(claim_bad))))
                 if fname == "ovni_proc_init":
                     # writes of the other fields lie between the CAS and the final store
                     bad = []
